@@ -356,8 +356,12 @@ def population(rng, date, n_hh=8, params=None, archetypes=None, corner=None,
     df["vertra_arbeitsl_2006"] = adult & (R.random(n) < 0.1)
     df["höchster_bruttolohn_letzte_15_jahre_vor_rente_y"] = np.where(
         adult, np.maximum(df["bruttolohn_m"] * 12, np.round(R.uniform(0, 90000, n), 2)), 0.0)
-    df["voll_erwerbsgemind"] = adult & ~rentner & (R.random(n) < 0.05)
-    df["teilw_erwerbsgemind"] = adult & ~rentner & ~df["voll_erwerbsgemind"].to_numpy() & (R.random(n) < 0.05)
+    df["voll_erwerbsgemind"] = adult & ~rentner & (alter < 63) & (R.random(n) < 0.06)
+    df["teilw_erwerbsgemind"] = adult & ~rentner & (alter < 63) & ~df["voll_erwerbsgemind"].to_numpy() & (R.random(n) < 0.05)
+    # a disability pension is drawn from a year in the past (age at entry <= current age)
+    em = df["voll_erwerbsgemind"].to_numpy() | df["teilw_erwerbsgemind"].to_numpy()
+    entry_age = np.minimum(alter, np.maximum(20, alter - R.integers(0, 15, n)))
+    df["jahr_renteneintr"] = np.where(em, df["geburtsjahr"] + entry_age, df["jahr_renteneintr"])
     df["behinderungsgrad"] = R.choice([0, 0, 0, 0, 20, 30, 50, 80, 100], n)
     df["schwerbeh_g"] = (df["behinderungsgrad"] >= 50) & (R.random(n) < 0.7)
 
@@ -366,6 +370,8 @@ def population(rng, date, n_hh=8, params=None, archetypes=None, corner=None,
     df["anwartschaftszeit"] = df["arbeitssuchend"] & (R.random(n) < 0.8)
     df["m_durchg_alg1_bezug"] = np.where(df["arbeitssuchend"], R.choice([0.0, 1.0, 6.0, 11.0, 12.0, 24.0], n), 0.0)
     df["sozialv_pflicht_5j"] = np.where(adult, R.choice([0.0, 11.0, 12.0, 24.0, 36.0, 48.0, 60.0], n), 0.0)
+    # the qualifying period (Anwartschaftszeit) requires at least 12 months of compulsory insurance
+    df["sozialv_pflicht_5j"] = np.where(df["anwartschaftszeit"], np.maximum(df["sozialv_pflicht_5j"], 12.0), df["sozialv_pflicht_5j"])
     df["bürgerg_bezug_vorj"] = R.random(n) < 0.5
     has_baby = np.isin(pid, np.concatenate([p1[alter < 3], p2[alter < 3]]))
     df["elterngeld_claimed"] = has_baby & (R.random(n) < 0.7)
@@ -476,3 +482,22 @@ def branch_reach(rng, df, date, params):
     df.loc[early, "bruttolohn_m"] = R.choice([0.0, 400.0, 525.0, 526.0, 1200.0, 3000.0, 4000.0, 9000.0], int(early.sum()))
     df.loc[early, "höchster_bruttolohn_letzte_15_jahre_vor_rente_y"] = R.choice([0.0, 20000.0, 60000.0], int(early.sum()))
     return df
+
+
+def replicate_with_wages(base, wages, column="bruttolohn_m", who=0):
+    """Copies of the (few-household) population `base`, one per wage, with disjoint ids; in copy i the
+    person in row `who` earns wages[i].  Used for sweeps along one input."""
+    parts = []
+    n_p = int(base["p_id"].max()) + 1
+    n_h = int(base["hh_id"].max()) + 1
+    for i, w in enumerate(wages):
+        b = base.copy()
+        pm = {int(p): int(p) + i * n_p for p in base["p_id"]}
+        hm = {int(h): int(h) + i * n_h for h in base["hh_id"].unique()}
+        b = relabel(b, pm, hm)
+        b.iloc[who, b.columns.get_loc(column)] = float(w)
+        parts.append(b)
+    out = pd.concat(parts, ignore_index=True)
+    for c in base.columns:
+        out[c] = out[c].astype(base[c].dtype)
+    return out
